@@ -84,3 +84,39 @@ def guard(f, what):
         except orders.Unsupported as ex:
             raise shape_error('%s not interpretable: %s' % (what, ex), f.loc())
     return run
+
+
+class ClassRef(orders.PyStub):
+    """the class object of a repository class: class constants, static methods, and construction of records"""
+
+    def __init__(self, ctx, clsqual, fn):
+        c = ctx.prog.cls(clsqual)
+        object.__setattr__(self, '_ctx', ctx)
+        object.__setattr__(self, '_qual', clsqual)
+        object.__setattr__(self, '_fn', fn)
+        object.__setattr__(self, 'isa', ('type',))
+        for k, v in c.consts.items():
+            try:
+                setattr(self, k, ast.literal_eval(v))
+            except Exception:
+                pass
+        for name, node in methods_of(ctx, clsqual).items():
+            params = [a.arg for a in node.args.args]
+            static = any(isinstance(d, ast.Name) and d.id in ('staticmethod',) for d in node.decorator_list) or not params or params[0] not in ('self', 'cls')
+            if static:
+                setattr(self, name, orders.make_func(node, fn))
+
+    def __call__(self, *args, **kwargs):
+        obj = instance(self._ctx, self._qual, {}, self._fn)
+        if '__init__' in obj.methods:
+            obj.call('__init__', *args, **kwargs)
+        return obj
+
+
+def classref(ctx, clsqual, fn):
+    """register the class under its bare name for calls (constructor) and for attribute access (constants, static methods)"""
+    ref = ClassRef(ctx, clsqual, fn)
+    name = ctx.prog.cls(clsqual).name
+    fn[name] = ref
+    fn['__globals__'][name] = ref
+    return ref
